@@ -711,6 +711,66 @@ def run_midvel_standin(tier="quick", seed=0):
     return res
 
 
+# ------------------------------------------------------------------------------------------ reparameterize_spline: bounded stand-in
+def reparam_tu():
+    return ('#include <math.h>\n#include <stdlib.h>\n#include <cmath>\n#include <smooth/se2.hpp>\n#include <smooth/spline/dubins.hpp>\n#include <smooth/spline/reparameterize.hpp>\nusing namespace smooth;\n'
+            '// out: [T, s(0), s(T), ds(0), then for i < n: s(i T / (n-1)), ds(i T / (n-1))]; info: [t_min, t_max] of the curve\n'
+            'extern "C" void reparam(const double*tgt,double R,const double*vmax,const double*amax,double v0,double v1,int n,double*out,double*info){\n'
+            '  const SE2d g = smooth::Map<const SE2d>(tgt); const auto c = dubins_curve<3>(g, R);\n'
+            '  const Eigen::Vector3d vM = Eigen::Map<const Eigen::Vector3d>(vmax), aM = Eigen::Map<const Eigen::Vector3d>(amax);\n'
+            '  const auto s = reparameterize_spline(c, (-vM).eval(), vM, (-aM).eval(), aM, v0, v1);\n'
+            '  info[0] = c.t_min(); info[1] = c.t_max(); const double T = s.t_max(); Eigen::Matrix<double, 1, 1> ds;\n'
+            '  out[0] = T; out[1] = s(0., ds); out[3] = ds(0); out[2] = s(T);\n'
+            '  for (int i = 0; i < n; ++i) { const double t = T * i / (n - 1); out[4 + 2 * i] = s(t, ds); out[5 + 2 * i] = ds(0); } }\n')
+
+
+def run_reparam_standin(tier="quick", seed=0):
+    """[bounded] reparameterize_spline on Dubins curves: the returned map is non-decreasing, runs from t_min to t_max, and starts
+    with speed <= the requested start speed"""
+    import ctypes
+    from irsx import build
+    res = Results(PROP)
+    try:
+        so = build.compile_tu("c14_reparam", reparam_tu(), "so-gcc", (), ())
+        lib = ctypes.CDLL(so)
+    except Exception as e:
+        res.add(PROP + "/standin/reparameterize_spline/build", "error", "infra", 0.0, str(e)[-1500:])
+        return res
+    rng = random.Random(seed + 321)
+    reps = 40 if tier == "quick" else 400
+    n = 200
+    worst = dict(mono=0.0, start=0.0, end=0.0, v0=0.0)
+    wit = {}
+    f = lib.reparam
+    f.restype = None
+    cnt = 0
+    for _ in range(reps):
+        x, y, th, R = rng.gauss(0, 3), rng.gauss(0, 3), rng.uniform(-math.pi, math.pi), rng.choice([0.5, 1.0, 2.0])
+        vmax = [10 ** rng.uniform(-0.5, 1) for _ in range(3)]
+        amax = [10 ** rng.uniform(-0.5, 1) for _ in range(3)]
+        v0 = rng.choice([0.0, 0.3, 1.0])
+        out, info = (ctypes.c_double * (4 + 2 * n))(), (ctypes.c_double * 2)()
+        f((ctypes.c_double * 4)(x, y, math.sin(th), math.cos(th)), ctypes.c_double(R), (ctypes.c_double * 3)(*vmax), (ctypes.c_double * 3)(*amax),
+          ctypes.c_double(v0), ctypes.c_double(math.inf), ctypes.c_int(n), out, info)
+        o = list(out)
+        if not all(math.isfinite(v) for v in o):
+            continue
+        cnt += 1
+        tmin, tmax = info[0], info[1]
+        env = dict(x=x, y=y, th=th, R=R, vmax=vmax, amax=amax, v0=v0)
+        svals = o[4::2]
+        m = max([0.0] + [svals[i] - svals[i + 1] for i in range(n - 1)])
+        for key, val in (("mono", m / max(1.0, tmax - tmin)), ("start", abs(o[1] - tmin)), ("end", abs(o[2] - tmax) / max(1.0, tmax - tmin)), ("v0", o[3] - v0)):
+            if val > worst[key]:
+                worst[key], wit[key] = val, env
+    for key, tol, what in (("mono", 1e-9, "non-decreasing"), ("start", 1e-9, "s(0)==t_min"), ("end", 1e-3, "s(T)==t_max"), ("v0", 1e-9, "s'(0)<=start-speed")):
+        ok = worst[key] <= tol
+        oid = "%s/standin/reparameterize_spline/%s" % (PROP, what)
+        res.add(oid, "bounded-ok" if ok else "bounded-fail", "bounded-standin", 0.0, "worst violation %.3g over %d curves" % (worst[key], cnt), witness=None if ok else wit.get(key),
+                extra=None if ok else dict(confirmed=True, replay=write_replay(oid, dict(obligation=oid, violation=worst[key], witness=wit.get(key), function="reparam", tu_text=reparam_tu()))))
+    return res
+
+
 def tasks(tier, seed=0):
     return [("c14", "run_dubins_select", (), dict(tier=tier, seed=seed, canary=False)),
             ("c14", "run_dubins_curve", (1,), dict(tier=tier, seed=seed)),
@@ -719,12 +779,12 @@ def tasks(tier, seed=0):
             ("c14", "run_bspline_span", (), dict(tier=tier, seed=seed)),
             ("c14", "run_fit1d_standin", (), dict(tier=tier, seed=seed)),
             ("c14", "run_midvel", (3, "se2"), dict(tier=tier, seed=seed)), ("c14", "run_midvel", (5, "v2"), dict(tier=tier, seed=seed)),
-            ("c14", "run_midvel_standin", (), dict(tier=tier, seed=seed))]
+            ("c14", "run_midvel_standin", (), dict(tier=tier, seed=seed)), ("c14", "run_reparam_standin", (), dict(tier=tier, seed=seed))]
 
 
 def prebuild(tier):
     return [("c14_dubins", tu(), "ll", RULES, ()), ("c14_dubins", tu(), "so-gcc", RULES, ()), ("c14_fit", fit_tu(), "so-gcc", (), ()), ("c14_midvel", midvel_tu(), "ll", (), ()),
-            ("c14_midvel", midvel_tu(), "so-gcc", (), ())]
+            ("c14_midvel", midvel_tu(), "so-gcc", (), ()), ("c14_reparam", reparam_tu(), "so-gcc", (), ())]
 
 
 TRUSTED = ["A1 real-arithmetic reading (minimality, time span, t_max)", "A2 libm contracts", "A5 the length of a word is R a1 + d2 + R a3 (arc length = radius x angle)",
@@ -733,5 +793,5 @@ TRUSTED = ["A1 real-arithmetic reading (minimality, time span, t_max)", "A2 libm
            "C12 contracts of Spline::ConstantVelocity / operator+=; C13 contracts of BSpline::t_min / t_max"]
 ASSUMPTIONS = ["R > 0", "dt > 0, strictly increasing time stamps"]
 UNVERIFIED = ["fit_spline as a whole and fit_spline_1d (sparse linear solves are outside the executor's and CBMC's reach): only the interpolation step of fit_spline is under contract "
-              "(K = 3 on SE2, K = 5 on vectors; K = 5, 6 on SE2 / SO3 bounded), fit_spline_1d by a bounded stand-in", "reparameterize_spline (LP passes) -- no claim",
+              "(K = 3 on SE2, K = 5 on vectors; K = 5, 6 on SE2 / SO3 bounded), fit_spline_1d by a bounded stand-in", "reparameterize_spline (LP passes): bounded stand-in on Dubins curves only",
               "the geometry of dubins_csc / dubins_ccc (that each word reaches the target): bounded stand-in only", "fit_bspline beyond its time span (the optimisation result)"]
